@@ -73,16 +73,25 @@ def run(chk, replay=None):
              ('pl', ce.pseudolikelihood_test, {'verbose': False}), ('m', ce.magnitude_test, {'verbose': False}),
              ('rm', ce.resampled_magnitude_test, {'seed': 5}), ('mll', ce.MLL_magnitude_test, {'seed': 5})]
 
-    def to_cats(abstract):
+    def to_cats(abstract, noise=False):
         u = 0
         out = []
-        for cat in abstract:
+        for ci_, cat in enumerate(abstract):
             c = []
             for (cell, k) in cat:
                 u += 1
                 c.append({'u': u, 'b': (cell - 1) * 2 + k, 'm': True, 's': True})
+            if noise:
+                # events the forecast's configured filters remove (below the magnitude threshold / outside the region)
+                u += 2
+                c.insert(ci_ % (len(c) + 1), {'u': u - 1, 'b': 1 + (ci_ % 6), 'm': False, 's': True})
+                if ci_ % 2:
+                    c.append({'u': u, 'b': 1 + ((ci_ + 3) % 6), 'm': True, 's': False})
             out.append(c)
         return out
+
+    def conf_of(src, noise):
+        return {'src': src, 'filt': noise, 'spat': noise}
 
     def obs_catalog(abstract):
         data = []
@@ -91,11 +100,12 @@ def run(chk, replay=None):
             data.append(('o%d' % i,) + tuple(e[1:]))
         return CSEPCatalog(data=data, region=world.make_region(), name='obs')
 
-    def evaluate(cats_abs, obs_abs, src):
-        """run the six tests; returns dict key -> result/Raised/None and the recorded resampled histograms"""
+    def evaluate(cats_abs, obs_abs, src, noise=False):
+        """run the six tests; returns dict key -> result/Raised/None and the recorded resampled histograms.  noise: the
+        forecast's source holds additional events that its configured filters remove - the evaluated forecast is the same"""
         out, hists = {}, {'rm': [], 'mll': []}
         for key, fn, kw in TESTS:
-            fcst = build_forecast(world, {'src': src, 'filt': False, 'spat': False}, to_cats(cats_abs), path)
+            fcst = build_forecast(world, conf_of(src, noise), to_cats(cats_abs, noise), path)
             obs = obs_catalog(obs_abs)
             with ChoiceCapture(numpy) as cap, contextlib.redirect_stdout(io.StringIO()):
                 r = guarded_timeout(30, fn, fcst, obs, **kw)
@@ -106,10 +116,10 @@ def run(chk, replay=None):
                     hists[key].append([int((d < 5.0).sum()), int((d >= 5.0).sum())])
         return out, hists
 
-    def evaluate_shared(cats_abs, obs_abs, src, order):
+    def evaluate_shared(cats_abs, obs_abs, src, order, noise=False):
         """the same tests, one after another on ONE forecast object (the order rotates): evaluating must not change what a
         later evaluation sees"""
-        fcst = build_forecast(world, {'src': src, 'filt': False, 'spat': False}, to_cats(cats_abs), path)
+        fcst = build_forecast(world, conf_of(src, noise), to_cats(cats_abs, noise), path)
         out = {}
         for key, fn, kw in order:
             obs = obs_catalog(obs_abs)
@@ -186,13 +196,16 @@ def run(chk, replay=None):
             continue
         cats_abs, obs_abs = case['cats'], case['obs']
         src = pick.choice(['list', 'nostore', 'store'])
-        got, hists = evaluate(cats_abs, obs_abs, src)
+        noise = pick.random() < 0.3
+        got, hists = evaluate(cats_abs, obs_abs, src, noise)
         records.append({'cats': cats_abs, 'obs': obs_abs, 'rm': hists['rm'], 'mll': hists['mll']})
-        runs.append((got, src))
+        runs.append((got, src + ('+filtered' if noise else '')))
+        if noise:
+            chk.nontrivial('filtered|%s|%s|%s' % (cats_abs, obs_abs, src))
         if len(records) % 4 == 1:
             k = len(records) % len(TESTS)
             order = TESTS[k:] + TESTS[:k]
-            got2 = evaluate_shared(cats_abs, obs_abs, src, order)
+            got2 = evaluate_shared(cats_abs, obs_abs, src, order, noise)
             for pos, (key, _fn, _kw) in enumerate(order):
                 if not same_result(got[key], got2[key]):
                     chk.violation('sequence:%s differs after %s on the same forecast object' % (key, '+'.join(o[0] for o in order[:pos]) or 'nothing'),
@@ -236,7 +249,7 @@ def run(chk, replay=None):
         cats_abs = [sorted(c) for c in cats_abs]
         obs_abs = sorted((rng.choice([1, 2, 3]), rng.choice([1, 2])) for _ in range(rng.choice([0, 1, 3, 8])))
         src = ['list', 'nostore', 'store'][t % 3]
-        got, hists = evaluate(cats_abs, obs_abs, src)
+        got, hists = evaluate(cats_abs, obs_abs, src, noise=(t % 2 == 1))
         records.append({'cats': [[list(e) for e in c] for c in cats_abs], 'obs': [list(e) for e in obs_abs], 'rm': hists['rm'], 'mll': hists['mll']})
         runs.append((got, src))
         chk.nontrivial('rand|%d|%d|%d' % (J, len(obs_abs), t))
